@@ -773,8 +773,13 @@ class DocutilsRenderer(RendererProtocol):
         # TODO this is purely to mimic docutils, but maybe we don't need it?
         # (since we have the slugify logic below)
         name = nodes.fully_normalize_name(implicit_text)
-        node["names"].append(name)
+        # names already on the node (e.g. from an `id` attribute) have been registered
+        # as explicit targets; only register the new implicit name here,
+        # otherwise docutils reports the node's own explicit names as duplicates
+        explicit_names = node["names"]
+        node["names"] = [name]
         self.document.note_implicit_target(node, node)
+        node["names"] = explicit_names + node["names"]
 
         if level > self.md_config.heading_anchors:
             return
